@@ -7,10 +7,11 @@ CONSTANTS
   MaxAtoms = 2
   GuardSet = {"none", "other"}
   Narrow = TRUE
-  Shapes = {"one", "chain"}
+  Shapes = {"one", "chain", "dia"}
   ForeignGuardMisread = FALSE
   StrictPositiveMin = FALSE
   RaiseOnConflict = FALSE
+  SnapshotStacking = FALSE
   NegativeMaxIsError = TRUE
 INVARIANT TypeOK
 INVARIANT Exact
